@@ -47,8 +47,8 @@ static std::vector<cell_ptr> make_tissue(const tissue_case& t, const std::vector
     return cells;
 }
 
-static void dump_in(const std::vector<cell_ptr>& cells){
-    std::cout << "IN " << cells.size();
+static void dump_in(const std::vector<cell_ptr>& cells, const char* tag = "IN"){
+    std::cout << tag << " " << cells.size();
     for (const cell_ptr& c : cells){
         std::cout << " C " << c->get_id() << " " << c->get_local_id() << " " << c->get_cell_type_id() << " " << hx(c->get_cell_type()->surface_coupling_max_curvature_) << " " << c->node_lst_.size();
         for (const node& n : c->node_lst_){
@@ -140,8 +140,17 @@ int main(){
         std::istringstream in(line);
         try {
             tissue_case t = read_tissue(in);
-            expect(in, "CT"); int threads; in >> threads;
-            std::vector<unsigned> ids; { unsigned x; while (in >> x) ids.push_back(x); }
+            std::string md; in >> md; if (md != "CT" && md != "CT2") throw std::runtime_error("expected CT");
+            int threads; in >> threads;
+            std::vector<unsigned> ids;
+            // CT2: a SECOND contact phase on the same model object after the cells were moved / node curvatures changed
+            std::vector<std::array<double,4>> moves; std::vector<std::tuple<unsigned,unsigned,double>> curv;
+            if (md == "CT2"){
+                size_t k; in >> k; for (size_t i = 0; i < k; i++){ unsigned x; in >> x; ids.push_back(x); }
+                in >> k; for (size_t i = 0; i < k; i++){ unsigned c; in >> c; double x = rd(in), y = rd(in), z = rd(in); moves.push_back({(double)c, x, y, z}); }
+                in >> k; for (size_t i = 0; i < k; i++){ unsigned c, n; in >> c >> n; curv.push_back({c, n, rd(in)}); }
+            }
+            else { unsigned x; while (in >> x) ids.push_back(x); }
             omp_set_num_threads(threads);
             std::vector<cell_ptr> cells = make_tissue(t, ids);
 #if CONTACT_MODEL_INDEX == 1
@@ -161,6 +170,17 @@ int main(){
             }
             std::cout << " # ";
             dump_out("OUT", cells);
+            if (md == "CT2"){
+                for (auto& m : moves){ cell_ptr c = cells.at((size_t)m[0]); for (node& n : c->node_lst_) if (n.is_used()) n.pos_.translate(vec3(m[1], m[2], m[3])); }
+#if CONTACT_MODEL_INDEX == 1 || CONTACT_MODEL_INDEX == 2
+                for (auto& [c, n, v] : curv) cells.at(c)->node_lst_.at(n).curvature_ = v;
+#endif
+                for (cell_ptr c : cells) for (node& n : c->node_lst_) n.force_.reset();
+                std::cout << " # "; dump_in(cells, "IN2");
+                cm.run(cells);
+                std::cout << " # "; dump_out("OUT2", cells);
+                std::cout << "\n"; continue;
+            }
 #if CONTACT_MODEL_INDEX == 1
             std::vector<cell_ptr> cells2 = make_tissue(t, ids);
             cmodel cm2(t.sp);
